@@ -432,13 +432,59 @@ def _mode_table(ctx, P):
             ctx.ok("R06.3", f"dask-mode table ({funcname})", f"{len(configs)} chunkings x 2 axis orders, {len(rows)} distinct rows: " + "; ".join(sorted(map(repr, rows))))
 
 
+def _mentions(v, target, depth=0) -> bool:
+    """Does the value (text parts, call lineages, containers) depend on the object `target`?"""
+    from ..absint import Text
+
+    if v is target:
+        return True
+    if depth > 6:
+        return False
+    if isinstance(v, Text):
+        return any(_mentions(x, target, depth + 1) for x in v.parts)
+    if isinstance(v, (list, tuple, set, frozenset)):
+        return any(_mentions(x, target, depth + 1) for x in v)
+    if isinstance(v, dict):
+        return any(_mentions(x, target, depth + 1) for x in list(v.keys()) + list(v.values()))
+    if isinstance(v, Obj):
+        return any(_mentions(x, target, depth + 1) for e in v.eff for x in e[1:])
+    return False
+
+
 def _wiring(ctx, P):
     fi = P.func("grid_ufunc:_map_func_over_core_dims")
     calls = []
 
     def m_overlap(ev, args, kw, node):
         calls.append((list(args), dict(kw)))
+        call_nodes.append(node)
         return Obj("dask", "mapped-array")
+
+    call_nodes = []
+
+    def name_depends_on_blocks(node):
+        """Syntactic fallback for a `name=` / `token=` whose value the evaluator cannot follow: does the expression (through the
+        plain assignments of the enclosing functions) use the wrapper's own arguments, i.e. the blocks?"""
+        kwn = next((k.value for k in getattr(node, "keywords", []) if k.arg in ("name", "token")), None)
+        if kwn is None:
+            return True
+        inner = [f for f in ast.walk(fi.node) if isinstance(f, (ast.FunctionDef, ast.Lambda)) and f is not fi.node and any(n is node for n in ast.walk(f))]
+        params = set()
+        for f in inner:
+            a = f.args
+            params |= {x.arg for x in a.posonlyargs + a.args + a.kwonlyargs} | ({a.vararg.arg} if a.vararg else set())
+        assigns = {}
+        for n in ast.walk(fi.node):
+            if isinstance(n, ast.Assign) and len(n.targets) == 1 and isinstance(n.targets[0], ast.Name):
+                assigns.setdefault(n.targets[0].id, []).append(n.value)
+        seen, todo = set(), [kwn]
+        while todo:
+            ex = todo.pop()
+            for n in ast.walk(ex):
+                if isinstance(n, ast.Name) and n.id not in seen:
+                    seen.add(n.id)
+                    todo.extend(assigns.get(n.id, []))
+        return bool(seen & params)
 
     def transpose(ev, recv, args, kw, node):
         dims = recv.attrs.get("dims")
@@ -490,6 +536,10 @@ def _wiring(ctx, P):
                     bad = f"boundary={kw.get('boundary')!r}: dask would pad the chunks again (must be 'none', xgcm padded already)"
                 elif kw.get("trim") is not False:
                     bad = f"trim={kw.get('trim')!r}: dask would cut the overlap off the result although the grid ufunc trims itself"
+                elif any(k_ in kw for k_ in ("name", "token")) and not (_mentions(kw.get("name", kw.get("token")), blk) or (kw.get("name", kw.get("token")) is TOP and name_depends_on_blocks(call_nodes[-1]))):
+                    # dask derives the keys of the mapped blocks from the function and the *input arrays*; a name given by hand
+                    # that does not depend on the blocks makes two different fields with the same layout share their keys
+                    bad = f"map_overlap is given a fixed name ({kw.get('name', kw.get('token'))!r}) that does not depend on the input blocks: lazy results of different fields with the same chunking collide in one graph"
                 else:
                     ch = kw.get("chunks")
                     want = tuple(Sym(f"chunks(da,{d.name})") for d in tdims)
